@@ -83,13 +83,15 @@ def shrink(sc):
         for i in range(1, len(sc['dimsets'])):
             c = copy.deepcopy(sc)
             d = c['dimsets'].pop(i)
-            c['ops'] = [op for op in c['ops'] if not (op[0] in ('store', 'load', 'is_cached', 'remove') and op[2] == d)
-                        and not (op[0] in ('store_many', 'load_many') and op[1] == d)]
+            c['ops'] = [op for op in c['ops'] if not (op[0] in ('store', 'load', 'is_cached', 'remove', 'load_meta') and op[2] == d)
+                        and not (op[0] in ('store_many', 'load_many', 'remove_many') and op[1] == d)]
             yield c
     used = []
     for op in sc['ops']:
-        if op[0] in ('store', 'load', 'is_cached', 'remove'):
+        if op[0] in ('store', 'load', 'is_cached', 'remove', 'load_meta'):
             used.append(op[1])
+        elif op[0] == 'remove_many':
+            used.extend(op[2])
         elif op[0] == 'store_many':
             used.extend(c for c, p in op[2])
         elif op[0] == 'load_many':
